@@ -186,11 +186,7 @@ class DynamicLink(Link):
         )
 
         if self.linker.needs_libs:
-            linkers = self._get_linkers(env, self.input_langs)
-            self._internal_options.collect(
-                (i.always_libs(i is self.linker) for i in linkers),
-                (opts.lib(i) for i in self.libs)
-            )
+            self._internal_options.collect(opts.lib(i) for i in self.libs)
 
         if self.linker.needs_package_options:
             self._internal_options.collect(i.link_options(self.linker)
@@ -198,6 +194,15 @@ class DynamicLink(Link):
 
         self._internal_options.collect(extra_options,
                                        forward_opts.link_options)
+
+        if self.linker.needs_libs:
+            # The runtime libraries of the other languages linked in go last:
+            # static libraries (our own or forwarded ones) that need them have
+            # to come before them on the command line.
+            linkers = self._get_linkers(env, self.input_langs)
+            self._internal_options.collect(
+                i.always_libs(i is self.linker) for i in linkers
+            )
 
     def _fill_output(self, output):
         first(output).runtime_deps.extend(
